@@ -16,7 +16,7 @@ fn base() -> Vec<&'static str> {
         "a.com##.x:remove-attr(href)", "a.com##.y:remove-class(big)", "a.com##.z:remove()", "a.com##div:has-text(/ad/i):upward(2)", "a.com##+js(set-constant, a.b, 'x, y', \\,z)",
         "a.com#@#+js()", "[Adblock Plus 2.0]", "! Title: My list", "! Expires: 4 days (update frequency)", "! Expires: 12 hours", "! Homepage: https://example.com/", "! Redirect: https://example.com/list.txt",
         "127.0.0.1 ads.example.net", "0.0.0.0 tracker.example.org # comment", "::1 localhost", "ads.example.net", "bücher.example##.ad", "||bücher.example^", "example.com#?#div:-abp-has(.ad)", "example.com#$#.x { color: red }",
-        "example.com#%#//scriptlet('x')", "a.com,b.com#@#.x:style(color: red)", "$websocket,domain=~a.com", "|ws://sock.example^", "||a.example^$~script,~image,xhr", "@@||a.example^$generichide", "@@||a.example^$elemhide",
+        "example.com#%#//scriptlet('x')", "[ads]/banner", "[x]$image", " ads.example.com # ad server", "\t0.0.0.0  tracker2.example.org  # é comment", "a.com,b.com#@#.x:style(color: red)", "$websocket,domain=~a.com", "|ws://sock.example^", "||a.example^$~script,~image,xhr", "@@||a.example^$generichide", "@@||a.example^$elemhide",
     ]
 }
 fn corpus() -> Vec<String> {
@@ -89,5 +89,15 @@ fn c11_rejected_lines_do_not_influence_the_others() {
             Engine::from_filter_set(fs, false).serialize_raw().unwrap()
         };
         assert!(build(&mixed) == build(&good), "{format:?}: a list with rejected lines interleaved builds a different engine than the list without them");
+        // the same with every accepted line moved to the front once, behind comment lines and behind a rejected line
+        for g in good.iter().step_by(5) {
+            let others: Vec<&String> = good.iter().filter(|x| *x != g).cloned().collect();
+            let bang = "! comment".to_string(); let junk = "$$".to_string(); let empty = String::new();
+            let a: Vec<&String> = std::iter::once(*g).chain(others.iter().cloned()).collect();
+            let b: Vec<&String> = [&bang, &bang, *g].into_iter().chain(others.iter().cloned()).collect();
+            let c: Vec<&String> = [&bang, &junk, &empty, *g].into_iter().chain(others.iter().cloned()).collect();
+            let ea = build(&a);
+            assert!(ea == build(&b) && ea == build(&c), "{format:?}: whether {g:?} is loaded depends on the comment / rejected lines in front of it");
+        }
     }
 }
